@@ -227,7 +227,7 @@ def s_cases():
     for j in range(0, 8):
         cid = "S/%d" % j
         ls = ["L\t%s.l\tuser\t%s" % (cid, esc(prog)),
-              "Q\t%s.q\t1\tcatch(mkt31(5,%d,L), error(E,_), true), X = done, ( var(L) -> LB = unbound ; LB = bound ), ( var(E) -> EB = none ; EB = E )." % (cid, j)]
+              "QI\t%s.q\t0\t1\tcatch(mkt31(5,%d,L), error(E,_), true), X = done, ( var(L) -> LB = unbound ; LB = bound ), ( var(E) -> EB = none ; EB = E )." % (cid, j)]
         out.append({"id": cid, "impl": ls, "model": ["S\t%s.m\t5\t%d" % (cid, j)], "j": j})
     return out
 
@@ -304,7 +304,9 @@ def run(ctx):
         sc = mk_sweep_case(key[0], key[1], key[2], ns, total)
         sc["ref"] = ref
         for n in ns:
-            sc["model"].append("D\t%s.%d.m\t%d\t%d\t%d" % (sc["id"], n, PERIOD, n, total))
+            # model ticks are the boundaries BETWEEN dispatched instructions (the poll sits at the top of
+            # the next loop iteration): a run of `total` instructions has total-1 of them
+            sc["model"].append("D\t%s.%d.m\t%d\t%d\t%d" % (sc["id"], n, PERIOD, n, max(total - 1, 0)))
         scases.append(sc)
     scases += s_cases()
     impl, model = diff.run_cases(scases, impl_env=env)
@@ -347,7 +349,7 @@ def run(ctx):
             classes[cls] = classes.get(cls, 0) + 1
             single = {"id": rid, "template": c["template"], "shape": c["shape"], "pad": c["pad"], "n": n,
                       "impl": setup_lines(rid) + [l for l in c["impl"] if l.split("\t")[1].startswith(rid + ".")],
-                      "model": ["D\t%s.m\t%d\t%d\t%d" % (rid, PERIOD, n, c["total"])]}
+                      "model": ["D\t%s.m\t%d\t%d\t%d" % (rid, PERIOD, n, max(c["total"] - 1, 0))]}
             if len(samples) < 6:
                 samples.append({"query": c["query"], "n": n, "impl": (impl.get(rid + ".f") or "")[:160], "model": m})
             sig = None
